@@ -747,6 +747,111 @@ func c12CanJoin(r *hx.Run) {
 	r.Op("canjoin\t"+string(b), fmt.Sprint(utils.VerifCanJoin(ls, rs, vm)))
 }
 
+// ---- C12, static comparison folding: Model/StaticFlow against the real analysis and the real engine ----
+
+type seNode struct {
+	text  string
+	json  map[string]any
+	isVec bool
+	closed bool
+}
+
+func c12SE(rr *rand.Rand, depth int, wantVec bool) seNode {
+	num := func() seNode {
+		k := rr.Intn(4)
+		return seNode{text: fmt.Sprint(k), json: map[string]any{"k": "num", "v": k}, closed: true}
+	}
+	if !wantVec {
+		if depth <= 0 || rr.Intn(3) == 0 {
+			return num()
+		}
+		switch rr.Intn(4) {
+		case 0:
+			e := c12SE(rr, depth-1, false)
+			return seNode{text: "-(" + e.text + ")", json: map[string]any{"k": "neg", "e": e.json}, closed: e.closed}
+		case 1:
+			// a comparison between scalars needs bool
+			l, r2 := c12SE(rr, depth-1, false), c12SE(rr, depth-1, false)
+			op := hx.Pick(rr, []string{"==", "!=", "<=", "<", ">=", ">"})
+			return seNode{text: "(" + l.text + " " + op + " bool " + r2.text + ")", json: map[string]any{"k": "bin", "op": op, "bool": true, "l": l.json, "r": r2.json}, closed: l.closed && r2.closed}
+		default:
+			l, r2 := c12SE(rr, depth-1, false), c12SE(rr, depth-1, false)
+			op := hx.Pick(rr, []string{"+", "-", "*"})
+			return seNode{text: "(" + l.text + " " + op + " " + r2.text + ")", json: map[string]any{"k": "bin", "op": op, "bool": false, "l": l.json, "r": r2.json}, closed: l.closed && r2.closed}
+		}
+	}
+	if depth <= 0 || rr.Intn(4) == 0 {
+		if rr.Intn(5) == 0 {
+			return seNode{text: "m1", json: map[string]any{"k": "sel"}, isVec: true}
+		}
+		e := c12SE(rr, depth-1, false)
+		return seNode{text: "vector(" + e.text + ")", json: map[string]any{"k": "vector", "e": e.json}, isVec: true, closed: e.closed}
+	}
+	switch rr.Intn(5) {
+	case 0:
+		e := c12SE(rr, depth-1, true)
+		return seNode{text: "-(" + e.text + ")", json: map[string]any{"k": "neg", "e": e.json}, isVec: true, closed: e.closed}
+	default:
+		lv, rv := true, true
+		switch rr.Intn(3) {
+		case 0:
+			lv = false
+		case 1:
+			rv = false
+		}
+		l, r2 := c12SE(rr, depth-1, lv), c12SE(rr, depth-1, rv)
+		op := hx.Pick(rr, []string{"+", "-", "*", "==", "!=", "<=", "<", ">=", ">"})
+		b := strings.ContainsAny(op, "<>=!") && rr.Intn(5) == 0
+		bs := ""
+		if b {
+			bs = " bool"
+		}
+		return seNode{text: "(" + l.text + " " + op + bs + " " + r2.text + ")", json: map[string]any{"k": "bin", "op": op, "bool": b, "l": l.json, "r": r2.json}, isVec: true, closed: l.closed && r2.closed}
+	}
+}
+
+func c12Static(r *hx.Run) {
+	e := c12SE(r.Rng, 1+r.Rng.Intn(3), true)
+	node, err := promParser.ParseExpr(e.text)
+	if err != nil {
+		r.Count("static:parse-error")
+		return
+	}
+	cs := lfCase{Expr: e.text, Full: true}
+	srcs, crashed := lfLabelsSource(r, cs, node)
+	if crashed || len(srcs) != 1 {
+		r.Count("static:not-one-source")
+		return
+	}
+	s0 := srcs[0]
+	num := "-"
+	if s0.KnownReturn {
+		num = fmt.Sprint(int64(s0.ReturnedNumber))
+	}
+	b, _ := json.Marshal(e.json)
+	r.Count(fmt.Sprintf("static:dead=%v", s0.IsDead))
+	r.Op("lfstatic\t"+string(b), fmt.Sprintf("%v %v %s %v", s0.AlwaysReturns, s0.KnownReturn, num, s0.IsDead))
+	if !e.closed {
+		return
+	}
+	// the model's evaluation of closed expressions against the engine (no stored data is involved)
+	ls, vals, err := promeval.Instant(lfBuild(nil, ""), e.text, lfT0)
+	if err != nil {
+		r.Count("static:eval-error")
+		return
+	}
+	got := "v:none"
+	if len(ls) == 1 {
+		got = fmt.Sprintf("v:%d", int64(vals[0]))
+	}
+	r.Op("lfeval\t"+string(b), got)
+	// the property on this fragment, observed: a static verdict means the query returns nothing (known: bool)
+	if s0.IsDead && len(ls) > 0 {
+		r.Violate(hx.Violation{Class: "dead-operand-contributes:static-comparison" + lfBool("static-comparison", e.text), Known: true, Input: cs,
+			Observed: map[string]any{"source": lfShowSrc(s0), "result": lfResultKey(ls, vals)}, Expected: "a query declared dead returns nothing"})
+	}
+}
+
 func runC12(r *hx.Run, replay string) {
 	if replay != "" {
 		c12Eval(r, lfReplay(replay))
@@ -754,6 +859,7 @@ func runC12(r *hx.Run, replay string) {
 	}
 	for i := 0; i < r.N; i++ {
 		c12CanJoin(r)
+		c12Static(r)
 		g := &lfGen{rr: r.Rng, c12: true}
 		expr := g.vec(1 + r.Rng.Intn(3))
 		for k := 0; k < 3; k++ {
